@@ -39,70 +39,82 @@ def allocAddr (mode R n gran : Int) : Int := if mode = 0 then R else K - (n + gr
 
 def range' (lo hi : Int) : List Int := (List.range (hi - lo + 1).toNat).map (fun i => lo + Int.ofNat i)
 
-/-- smallest pixel address / largest pixel end (memory units, all planes) over the pixels of `v` -/
-def extent (o : Org) (plane : Int) (v : View) : Int × Int :=
+/-- smallest pixel address / largest pixel end (memory units, all planes; `lastPlane` = offset of the last plane) over the pixels of `v` -/
+def extent (o : Org) (lastPlane : Int) (v : View) : Int × Int :=
   let addrs := (range' 0 (v.h - 1)).flatMap fun y => (range' 0 (v.w - 1)).map fun x => v.addr x y
   match addrs with
   | [] => (0, 0)
   | a :: rest =>
     let lo := rest.foldl min a
     let hi := rest.foldl max a
-    (lo, hi + o.mstep + (if o.planar then (o.nch - 1) * plane else 0))
+    (lo, hi + o.mstep + (if o.planar then lastPlane else 0))
 
-/-- state after the constructor sequence: bytes of the storage in use, allocations made, allocator address, view geometry -/
+/-- state after the constructor sequence: the image (Model.C01: `_memory`, `_allocated_bytes`, `_align_in_bytes`, `_view`, planes)
+    and the number of allocations made -/
 structure St where
-  n : Int
+  img : Img
   nalloc : Int
-  m : Int
-  w : Int
-  h : Int
-  a : Int
 
-/-- `allocate_`: nothing is allocated for 0 bytes, and then the view stays default-constructed (0 x 0) -/
+/-- a constructor: `allocate_` (Model.C01.allocate, built from the generated body); nothing is allocated for 0 bytes -/
 def fresh (o : Org) (gran mode R w h a : Int) (prev : Int) : St :=
-  let n := allocBytes o w h a
-  if n = 0 then { n := 0, nalloc := prev, m := 0, w := 0, h := 0, a := a } else
-  { n := n, nalloc := prev + 1, m := allocAddr mode R n gran, w := w, h := h, a := a }
+  let img := allocate o (fun n => allocAddr mode R n gran) w h a
+  { img := img, nalloc := if img.allocated = 0 then prev else prev + 1 }
 
-def runCtor (o : Org) (gran mode R : Int) (ctor : String) (W H A W2 H2 A2 : Int) : Option St :=
+/-- `recreate` (Model.C01.recreate, branch from the generated body); branch 2 builds a new image -/
+def recr (o : Org) (gran mode R : Int) (s : St) (c : Call) : St :=
+  let br := (recreateK o c.ov s.img c.w c.h c.a c.allocEq).2
+  let nw := fresh o gran mode R c.w c.h c.a s.nalloc
+  { img := recreate o (fun _ => nw.img) s.img c, nalloc := if br = 2 then nw.nalloc else s.nalloc }
+
+def overloadOf (i : Nat) : Overload :=
+  match i % 4 with | 0 => .dims | 1 => .dimsFill | 2 => .dimsAlloc | _ => .dimsFillAlloc
+
+def parseCalls (s : String) : Option (List (Int × Int × Int)) :=
+  if s = "-" then some [] else
+  (s.splitOn "/").mapM fun tok =>
+    match ints (((tok.drop 1).toString.splitOn ",").filter (· ≠ "")) with
+    | some [w, h, a] => some (w, h, a)
+    | _ => none
+
+def runCtor (o : Org) (gran mode R : Int) (ctor : String) (W H A W2 H2 A2 : Int) (more : List (Int × Int × Int)) : Option St :=
   match ctor with
   | "d" | "f" => some (fresh o gran mode R W H A 0)
   | "c" =>      -- copy constructor: dimensions and alignment of the source *as it is* (0 x 0 if it has no storage)
-    let s1 := fresh o gran mode R W H A 0; some (fresh o gran mode R s1.w s1.h s1.a s1.nalloc)
+    let s1 := fresh o gran mode R W H A 0; some (fresh o gran mode R s1.img.view.w s1.img.view.h s1.img.a s1.nalloc)
   | "a" =>
     let s1 := fresh o gran mode R W H A 0
     let s2 := fresh o gran mode R W2 H2 A2 s1.nalloc
-    if s1.w = s2.w ∧ s1.h = s2.h then some s2                       -- copy_pixels into the existing storage
-    else some (fresh o gran mode R s1.w s1.h s1.a s2.nalloc)         -- image tmp(img); swap(tmp)
-  | "r" =>
-    let s1 := fresh o gran mode R W H A 0
-    if s1.w = W2 ∧ s1.h = H2 ∧ A = A2 then some s1
-    else if s1.n ≥ allocBytes o W2 H2 A2 then some { s1 with w := W2, h := H2, a := A2 }   -- create_view over the old storage
-    else some (fresh o gran mode R W2 H2 A2 s1.nalloc)
+    if s1.img.view.w = s2.img.view.w ∧ s1.img.view.h = s2.img.view.h then some s2                       -- copy_pixels into the existing storage
+    else some (fresh o gran mode R s1.img.view.w s1.img.view.h s1.img.a s2.nalloc)         -- image tmp(img); swap(tmp)
+  | "r" => some (recr o gran mode R (fresh o gran mode R W H A 0) ⟨.dims, W2, H2, A2, true⟩)
+  | "q" =>
+    let calls := (W2, H2, A2) :: more
+    some (((List.range calls.length).zip calls).foldl (fun s (i, (w, h, a)) => recr o gran mode R s ⟨overloadOf i, w, h, a, true⟩)
+      (fresh o gran mode R W H A 0))
   | _ => none
 
 def showSt (o : Org) (s : St) (ts : List Xform) : String :=
-  if s.n = 0 then
-    let dv := GilVerif.Model.C02.applyMemAll ts { base := 0, xs := o.mstep, ys := 0, w := s.w, h := s.h }
-    showInts [0, s.nalloc, 0, 0, 0, s.w, s.h, 0, 0] ++ " | " ++ showInts [dv.w, dv.h, 0, 0] ++ " | ok"
+  let v := s.img.view
+  if s.img.allocated = 0 then
+    let dv := GilVerif.Model.C02.applyMemAll ts { base := 0, xs := o.mstep, ys := 0, w := v.w, h := v.h }
+    showInts [0, s.nalloc, 0, 0, 0, v.w, v.h, 0, 0] ++ " | " ++ showInts [dv.w, dv.h, 0, 0] ++ " | ok"
   else
-    let v := imageView o s.w s.h s.a s.m
-    let plane := v.ys * s.h
-    let e := extent o plane v
+    let last := s.img.plane (o.nch - 1)
+    let e := extent o last v
     let dv := GilVerif.Model.C02.applyMemAll ts v
-    let de := extent o plane dv
-    let fmod := if s.a > 0 then (s.m + originOff s.m s.a) % s.a else 0
-    showInts [s.n, s.nalloc, v.base, fmod, v.ys, s.w, s.h, e.1, e.2] ++ " | " ++ showInts [dv.w, dv.h, de.1, de.2] ++ " | ok"
+    let de := extent o last dv
+    let fmod := if s.img.a > 0 then (s.img.mem + v.base / o.b2m) % s.img.a else 0
+    showInts [s.img.allocated, s.nalloc, v.base, fmod, v.ys, v.w, v.h, e.1, e.2] ++ " | " ++ showInts [dv.w, dv.h, de.1, de.2] ++ " | ok"
 
 def model (line : String) : String :=
   match words line with
-  | ["img", k, W, H, A, mode, R, ctor, W2, H2, A2, xf] =>
-    match orgOf k, ints [W, H, A, mode, R, W2, H2, A2], parseXfs xf with
-    | some o, some [W, H, A, mode, R, W2, H2, A2], some ts =>
-      match runCtor o (granOf k) mode R ctor W H A W2 H2 A2 with
+  | "img" :: k :: W :: H :: A :: mode :: R :: ctor :: W2 :: H2 :: A2 :: xf :: rest =>
+    match orgOf k, ints [W, H, A, mode, R, W2, H2, A2], parseXfs xf, (match rest with | [] => some [] | [cs] => parseCalls cs | _ => none) with
+    | some o, some [W, H, A, mode, R, W2, H2, A2], some ts, some more =>
+      match runCtor o (granOf k) mode R ctor W H A W2 H2 A2 more with
       | some s => showSt o s ts
       | none => "bad-op"
-    | _, _, _ => "bad-op"
+    | _, _, _, _ => "bad-op"
   | ["buf", k, W, H, PAD, _mode] =>
     match orgOf k, ints [W, H, PAD] with
     | some o, some [W, H, PAD] =>
